@@ -98,7 +98,7 @@ def extra_checks(ctx):
     from harness import core
     from harness.models import world as impl_world
     rng = random.Random(ctx.seed * 7907 + 10)
-    n = 200 if ctx.tier == 'quick' else 4000
+    n = 200 if ctx.tier == 'quick' else 1500
     corpus = sorted((core.VERIF / 'corpus' / 'C10' / 'world').glob('*.scn'))
     scen = [[ln for ln in f.read_text().splitlines() if ln.strip() and not ln.startswith('#')] for f in corpus] + \
         list(_WorldStream.generate(rng, n))
